@@ -24,6 +24,38 @@ ASSUMPTIONS = ['Model/Sage.v is hand written; tied by correspondence only',
                'exact-arithmetic theorem; solver returns approximately feasible points']
 
 
+def check_witnesses(con, d, when):
+    """the exposed witnesses certify the exposed AGE vectors (documented inequality of PrimalSageCone.age_witnesses); ordinary SAGE only:
+    alpha^T w = 0 and D(w_{-i}, e c_{-i}) <= c_i, to solver tolerance"""
+    m = d['m']
+    alpha = d['alpha_np']
+    for i, w in con.age_witnesses.items():
+        wv = np.asarray(w.value, dtype=float)
+        ci = np.asarray(con.age_vectors[i].value, dtype=float)
+        if wv.shape != (m,) or not np.all(np.isfinite(wv)) or not np.all(np.isfinite(ci)):
+            continue
+        others = [j for j in range(m) if j != i]
+        if any(wv[j] < -1e-6 * (1 + abs(wv).max()) for j in others):
+            return '%s: witness %d has a negative entry off its own index: %s' % (when, i, wv.tolist())
+        if d['X'] is not None:
+            continue
+        scale = 1 + float(np.abs(wv).max()) + float(np.abs(ci).max())
+        if np.max(np.abs(alpha.T @ wv)) > 1e-4 * scale * (1 + float(np.abs(alpha).max())):
+            return '%s: witness %d does not balance the exponents: alpha^T w = %s' % (when, i, (alpha.T @ wv).tolist())
+        D = 0.0
+        ok = True
+        for j in others:
+            if wv[j] > 1e-7:
+                if ci[j] <= 1e-9:
+                    ok = False      # relative entropy against a (numerically) zero coefficient: not decidable to solver tolerance
+                    break
+                D += wv[j] * math.log(wv[j] / (math.e * ci[j]))
+        if ok and D > ci[i] + 1e-4 * scale:
+            return ('%s: witness %d = %s does not certify the exposed AGE vector %s: D(w, e c) = %r > c_i = %r'
+                    % (when, i, wv.tolist(), ci.tolist(), D, float(ci[i])))
+    return None
+
+
 def oracle_certificate(rng, d):
     """solve around the constraint and check the certificate numerically; None if it holds"""
     import sageopt.coniclifts as cl
@@ -34,10 +66,34 @@ def oracle_certificate(rng, d):
     with warnings.catch_warnings(), sagecorr.adversarial_globals(d['settings']):
         warnings.simplefilter('ignore')
         obj = float(rng.choice([1, -1])) * cv[0] + float(rng.choice([1, -1, 0])) * cv[1] + float(rng.choice([1, 0])) * cv[2]
+        _ = con.age_witnesses        # looked at before any solve: what is exposed later must still reflect the later solve
         prob = cl.Problem(cl.MIN, obj, [con, cv <= 4, cv >= -4])
         st, val = prob.solve(verbose=False)
     if st != 'solved' or not math.isfinite(val):
         return None
+    why = check_witnesses(con, d, 'after the first solve')
+    if why:
+        return why
+    why = certificate_at_values(rng, d, con, m, n)
+    if why:
+        return why
+    # the same constraint object in a second Problem with other data: the exposed certificate is the one of the latest solve
+    with warnings.catch_warnings(), sagecorr.adversarial_globals(d['settings']):
+        warnings.simplefilter('ignore')
+        try:
+            st2, val2 = cl.Problem(cl.MIN, -obj + 0.5 * cv[1], [con, cv <= 3, cv >= -3]).solve(verbose=False)
+        except Exception as e:
+            return 'a second Problem built from the same primal SAGE constraint raised %s %s' % (type(e).__name__, ' '.join(str(e).split())[:100])
+    if st2 != 'solved' or not math.isfinite(val2):
+        return None
+    why = check_witnesses(con, d, 'after a second solve with other data')
+    if why:
+        return why
+    why = certificate_at_values(rng, d, con, m, n)
+    return ('after a second solve with other data: ' + why) if why else None
+
+
+def certificate_at_values(rng, d, con, m, n):
     c = np.asarray(con.c.value, dtype=float)
     tot = np.zeros(m)
     for i, av in con.age_vectors.items():
